@@ -98,6 +98,10 @@ class AsgiMonitor:
             self.trip("returned-with-incomplete-response", self.state)
 
 
+class InjectedReceiveError(Exception):
+    pass
+
+
 class AsgiHttpPeer:
     """One HTTP request/response exchange as the server sees it.
 
@@ -110,7 +114,7 @@ class AsgiHttpPeer:
     def __init__(self, loop, ctx, tape, req, script=None, *, zerocopy=False, raise_after_disconnect=False,
                  disconnect_time=None, disconnect_after_sends=None, send_raise_at=None,
                  send_lats=SEND_LATS, recv_lat_extra=(0.0,), extensions=None, surface="asgi",
-                 complete_disconnects=True):
+                 complete_disconnects=True, recv_raises_after_script=False):
         self.loop = loop
         self.ctx = ctx
         self.tape = tape
@@ -144,6 +148,9 @@ class AsgiHttpPeer:
         self.send_lats = send_lats
         self.recv_lat_extra = recv_lat_extra
         self.complete_disconnects = complete_disconnects
+        # the receive channel offers the request and nothing else: a call after the last scripted message raises (a harness
+        # or gateway without disconnect notification - baize's own empty_receive behaves like that)
+        self.recv_raises_after_script = recv_raises_after_script
         self.monitor = AsgiMonitor(ctx, zerocopy, surface)
         self.sent = []              # (vtime, msg summary)
         self.send_calls = 0
@@ -188,6 +195,10 @@ class AsgiHttpPeer:
                 self.pos += 1
                 msg = self._build(m)
             else:
+                if self.recv_raises_after_script:
+                    self.ctx.fault("receive_channel_raises")
+                    self.ctx.sch("recv-raises", round(self.loop.time(), 6))
+                    raise InjectedReceiveError("injected: the receive channel has nothing more to offer (call %d)" % self.recv_calls)
                 if not self.disconnected.done():
                     await self._wait_disc()
                 msg = {"type": "http.disconnect"}
